@@ -135,6 +135,9 @@ type lcHarness struct {
 	maxBytes int       // EvaluatorOptions.MaxTxnBytesPerBlock of this case (0 = the protocol's)
 	tracer   *lcTracer // records the ApplyData of every member the evaluator reached
 	lastSz   string    // " #sz=…" annotation of the last group executed
+	// spaceObs: the block-space accounting is part of the protocol (space= in dumps, #sz= on group ops, load= at the end of
+	// a block).  Only TestVerifLcore sets it; other harnesses embedding lcHarness keep the plain format.
+	spaceObs bool
 }
 
 // lcTracer records, per group, the ApplyData of the members that were evaluated successfully (the sizes of their
@@ -266,6 +269,9 @@ func (h *lcHarness) startBlock() string {
 		p.MaximumMinimumBalance, p.MaxTxnLife, p.MaxTxGroupSize, p.MaxAssetsPerAccount, p.MaxAssetDecimals, lcB(p.UnfundedSenders), lcB(p.Payouts.Enabled), p.Payouts.GoOnlineFee,
 		uint64(agreement.BalanceLookback(p)), lcB(p.EnableKeyregCoherencyCheck), lcB(p.EnableStateProofKeyregCheck), lcB(p.SupportBecomeNonParticipatingTransactions), p.MaxKeyregValidPeriod,
 		lcAddrID(sink), lcAddrID(pool), lcSP, func() int { _, m := h.ev.VerifLcoreSpace(); return m }(), p.MaxTxnBytesPerBlock, lcB(p.LoadTracking))
+	if h.spaceObs {
+		sb.WriteString("spaceobs=1 ")
+	}
 	sb.WriteString(h.dump())
 	return sb.String()
 }
@@ -286,8 +292,11 @@ func (h *lcHarness) acctTok(id uint64) string {
 
 func (h *lcHarness) dump() string {
 	var sb strings.Builder
-	used, _ := h.ev.VerifLcoreSpace()
-	fmt.Fprintf(&sb, "payset=%d fees=%d ctr=%d space=%d", h.ev.PaySetSize(), h.ev.VerifLcoreFees(), h.ev.VerifLcoreCounter(), used)
+	fmt.Fprintf(&sb, "payset=%d fees=%d ctr=%d", h.ev.PaySetSize(), h.ev.VerifLcoreFees(), h.ev.VerifLcoreCounter())
+	if h.spaceObs {
+		used, _ := h.ev.VerifLcoreSpace()
+		fmt.Fprintf(&sb, " space=%d", used)
+	}
 	for id := uint64(0); id < lcN; id++ {
 		sb.WriteByte(' ')
 		sb.WriteString(h.acctTok(id))
@@ -517,22 +526,27 @@ func (h *lcHarness) group(op string) string {
 		return "bad-op"
 	}
 	ctrBefore := h.ev.VerifLcoreCounter()
-	h.tracer.ads = nil
+	if h.tracer != nil {
+		h.tracer.ads = nil
+	}
 	err := h.ev.TransactionGroup(transactions.WrapSignedTxnsWithAD(stxns)...)
 	cls := lcClassify(err)
 	// the encoded size of every member that was evaluated (0 for the others): an input of the model's space accounting
 	sz := make([]string, len(stxns))
 	for i := range stxns {
 		sz[i] = "0"
+		if h.tracer == nil || !h.spaceObs {
+			continue
+		}
 		if ad, reached := h.tracer.ads[i]; reached {
 			sz[i] = strconv.Itoa(h.ev.VerifLcoreEncodedLen(stxns[i], ad))
 		}
 	}
 	h.lastSz = ""
-	if len(stxns) > 0 {
+	if len(stxns) > 0 && h.spaceObs {
 		h.lastSz = " #sz=" + strings.Join(sz, ",")
 	}
-	if ann != "" && ann != h.lastSz { // replay: the recorded sizes of the members reached NOW must be the ones measured now
+	if h.spaceObs && ann != "" && ann != h.lastSz { // replay: the recorded sizes of the members reached NOW must be the ones measured now
 		rec := strings.Split(strings.TrimPrefix(ann, " #sz="), ",")
 		for i := range sz {
 			if sz[i] != "0" && (i >= len(rec) || rec[i] != sz[i]) {
@@ -582,7 +596,10 @@ func (h *lcHarness) endblock() string {
 	}
 	h.l.WaitForCommit(h.l.Latest())
 	tot := vvb.Delta().Totals
-	res := fmt.Sprintf("end payset=%d ctr=%d all=%d load=%d", len(vvb.Block().Payset), vvb.Block().TxnCounter, tot.All().Raw, uint64(vvb.Block().Load))
+	res := fmt.Sprintf("end payset=%d ctr=%d all=%d", len(vvb.Block().Payset), vvb.Block().TxnCounter, tot.All().Raw)
+	if h.spaceObs {
+		res += fmt.Sprintf(" load=%d", uint64(vvb.Block().Load))
+	}
 	h.ev = nil
 	return res
 }
@@ -1845,7 +1862,7 @@ func TestVerifLcore(t *testing.T) {
 	logging.Base().SetLevel(logging.Panic)
 	out := vh.Open("lcore")
 	defer out.Close()
-	h := &lcHarness{t: t}
+	h := &lcHarness{t: t, spaceObs: true}
 	defer h.closeLedger()
 	if ops, ok := vh.ReplayOps(); ok {
 		for _, op := range ops {
